@@ -61,6 +61,7 @@ func main() {
 	}
 	spinSleep = runtime.GOMAXPROCS(0) > 1
 	simrt.SetAbortHook(abortHook)
+	simrt.SeamPool(true)
 	if *flagReplay != "" {
 		doReplay(*flagReplay)
 		return
@@ -173,7 +174,7 @@ func abortHook(kind, detail string) {
 		detail = "no task can run:"
 		for i, s := range simrt.BlockedSites() {
 			if s >= 0 {
-				detail += fmt.Sprintf("\n  task %d is blocked on a mutex at %s", i, siteName(s))
+				detail += fmt.Sprintf("\n  task %d is blocked (mutex, condition variable or wait group) at %s", i, siteName(s))
 			}
 		}
 	}
